@@ -65,3 +65,75 @@ def stratified_points(sites, per_site=3, limit=60, rng=None):
         keep = set(rng.sample(pts, limit))
         pts = [p for p in pts if p in keep]
     return pts
+
+
+def fingerprint(objs):
+    """cheap syntactic state of operands: cached length, segment identities and control-point values of every curve"""
+    out = []
+    for S in objs:
+        js = getattr(S, "jordans", None)
+        if js is None:
+            js = [S] if hasattr(S, "segments") else []
+        for j in js:
+            out.append((getattr(j, "_JordanCurve__lenght", None),
+                        tuple(tuple((p._x, p._y) for p in s.ctrlpoints) for s in j.segments)))
+    return tuple(out)
+
+
+def fingerprint_light(objs):
+    """cached length and identity/length of the segment tuple of every curve (cache writes, re-assigned segment lists)"""
+    out = []
+    for S in objs:
+        js = getattr(S, "jordans", None)
+        if js is None:
+            js = [S] if hasattr(S, "segments") else []
+        for j in js:
+            segs = getattr(j, "_JordanCurve__segments", ())
+            out.append((getattr(j, "_JordanCurve__lenght", None), id(segs), len(segs)))
+    return tuple(out)
+
+
+def dirty_points(fn, objs, limit=40, rng=None):
+    """one profiling run that records, at every library call event, whether the operands' syntactic state differs from the
+    state at entry; returns (number of events, fault points): the first and the last event of every maximal run of events
+    with one and the same non-initial state - i.e. EVERY distinct intermediate state of the operands observable at a call
+    boundary is hit - plus the sites list for reporting."""
+    first = (fingerprint_light(objs), fingerprint(objs))
+    seen = []      # (event index, state id)
+    states = {}
+    sites = []
+    last = {"light": first[0], "full": first[1]}
+
+    def tracer(frame, event, arg):
+        if event == "call" and _is_lib(frame):
+            back = frame.f_back
+            sites.append((back.f_code.co_name if back else "?", frame.f_code.co_name))
+            light = fingerprint_light(objs)
+            # the full state (all control-point values) is re-read when the light state moved and at every 64th event
+            if light != last["light"] or len(sites) % 64 == 0:
+                last["light"], last["full"] = light, fingerprint(objs)
+            fp = (light, last["full"])
+            if fp != first:
+                sid = states.setdefault(fp, len(states))
+                seen.append((len(sites) - 1, sid))
+        return None
+    sys.settrace(tracer)
+    try:
+        fn()
+    finally:
+        sys.settrace(None)
+    pts = set()
+    prev = None
+    for idx, sid in seen:
+        if prev is None or prev[1] != sid or prev[0] != idx - 1:
+            pts.add(idx)
+            if prev is not None:
+                pts.add(prev[0])
+        prev = (idx, sid)
+    if prev is not None:
+        pts.add(prev[0])
+    pts = sorted(pts)
+    if len(pts) > limit and rng is not None:
+        keep = set(rng.sample(pts, limit))
+        pts = [p for p in pts if p in keep]
+    return len(sites), pts, sites, len(states)
